@@ -1,7 +1,385 @@
-import CaddyModel.C14.Model
+/-
+C14 — property theorems (helper lemmas are in Lemmas.lean, counter-examples for the
+operation orders the tree used to have in Witness.lean).
+
+Statement: state that caddy persists for use after a restart is recoverable wherever a crash
+or storage error interrupts it: with persistence enabled, the autosave file is at every
+instant a complete copy of some successfully loaded configuration, and of the latest pushed
+one once its load has returned.  The local CA's root certificate and key, once a start-up has
+succeeded, are reloaded unchanged by every later start-up (as is the intermediate until it is
+renewed), and after an interruption during their creation the next start-up succeeds with a
+mutually consistent certificate chain and keys.
+
+Quantifier: every point at which the process can die or a storage write can fail (before or
+after taking effect), any number of restarts, all load histories with persistence on/off.
+In the theorems: `Event.fault : Option Fault` ranges over every operation index and all four
+modes; `List Event` / `List AEvent` are arbitrary histories; nothing is bounded.
+-/
+import CaddyModel.C14.Lemmas
+import CaddyModel.C14.Witness
+
 namespace CaddyModel.C14
-theorem placeholder_ops_from_empty :
-    ((Event.mk ⟨1, 100⟩ none).run codeOrder Disk.empty).sys.log =
-      [.load .rootCrt, .store .rootKey (.key 0), .store .rootCrt (.cert 0 0 (1 + rootLife)),
-       .load .intCrt, .store .intKey (.key 1), .store .intCrt (.cert 1 0 101)] := by decide
+
+/-! ## local CA -/
+
+/-- **every interruption leaves a recoverable store (one step).**  Whatever the fault — any
+    operation index, process death or reported error, before or after the effect — a
+    start-up of the current code maps a store satisfying `InvAt` to one satisfying it. -/
+theorem interrupted_startup_keeps_invariant (e : Event) (d : Disk) (t : Nat)
+    (h : InvAt t d.store) (ht : t ≤ e.cfg.now) : InvAt e.cfg.now (e.after codeOrder d).store := by
+  have := wp_sound e.fault (startup .keyFirst e.cfg) _ (boot d) (wp_startup_inv e.cfg d.store d.fresh (h.mono ht))
+  exact this.store_all (fun _ _ _ h => h.1) (fun _ _ h => h) (fun _ h => h)
+
+/-- **every history of interrupted start-ups leaves a recoverable store.** -/
+theorem reachable_invariant : ∀ (evs : List Event) (t : Nat) (d : Disk), InvAt t d.store → Monotone t evs →
+    InvAt (lastTime t evs) (runHist codeOrder evs d).store
+  | [], _, _, h, _ => h
+  | e :: es, t, d, h, hm =>
+    reachable_invariant es e.cfg.now (e.after codeOrder d)
+      (interrupted_startup_keeps_invariant e d t h hm.1) hm.2
+
+/-- **recovery.**  After ANY history of start-ups on an initially empty storage, each of them
+    interrupted at any storage operation in any of the four ways (or not at all), the next
+    uninterrupted start-up succeeds, the chain and keys it holds are mutually consistent, and
+    they are exactly what the storage then contains. -/
+theorem recovery (evs : List Event) (hm : Monotone 0 evs) (c : Cfg) (hc : lastTime 0 evs ≤ c.now) :
+    ∃ m y, (Event.mk c none).run codeOrder (runHist codeOrder evs Disk.empty) = .ok m y ∧
+      m.Consistent ∧ Complete y.store m := by
+  have hinv := (reachable_invariant evs 0 Disk.empty (InvAt.empty 0) hm).mono hc
+  have := wpn_sound (startup .keyFirst c) _ (boot (runHist codeOrder evs Disk.empty))
+    (wpn_startup c _ (runHist codeOrder evs Disk.empty).fresh hinv)
+  unfold Event.run
+  show ∃ m y, exec none (startup .keyFirst c) (boot (runHist codeOrder evs Disk.empty)) = .ok m y ∧ _
+  cases hr : exec none (startup .keyFirst c) (boot (runHist codeOrder evs Disk.empty)) with
+  | ok m y => rw [hr] at this; exact ⟨m, y, rfl, this.2.1, this.1⟩
+  | err e y => rw [hr] at this; exact this.elim
+  | crash y => rw [hr] at this; exact this.elim
+
+/-- **recovery, the instance the property names**: the creation on an empty storage is
+    interrupted at the `k`-th operation in mode `mode`; the next start-up succeeds with a
+    consistent chain — for every `k`, every mode, every intermediate lifetime. -/
+theorem recovery_after_interrupted_creation (k : Nat) (mode : Mode) (life life' : Nat) :
+    ∃ m y, (Event.mk ⟨2, life'⟩ none).run codeOrder
+        ((Event.mk ⟨1, life⟩ (some ⟨k, mode⟩)).after codeOrder Disk.empty) = .ok m y ∧
+      m.Consistent ∧ Complete y.store m :=
+  recovery [⟨⟨1, life⟩, some ⟨k, mode⟩⟩] ⟨Nat.zero_le _, trivial⟩ ⟨2, life'⟩ (by simp [lastTime])
+
+/-- **root_stable.**  Once a start-up has succeeded (even one during which a fault was
+    injected), every later history of start-ups — interrupted anywhere, any number of
+    restarts — leaves the stored root certificate and key unchanged, and every later start-up
+    that returns uses that same root certificate. -/
+theorem root_stable (evs0 : List Event) (hm0 : Monotone 0 evs0) (e0 : Event) (he0 : lastTime 0 evs0 ≤ e0.cfg.now)
+    (m0 : Mem) (y0 : Sys) (h0 : e0.run codeOrder (runHist codeOrder evs0 Disk.empty) = .ok m0 y0)
+    (evs : List Event) :
+    (runHist codeOrder evs (e0.after codeOrder (runHist codeOrder evs0 Disk.empty))).store .rootCrt = some m0.root.crt ∧
+    (runHist codeOrder evs (e0.after codeOrder (runHist codeOrder evs0 Disk.empty))).store .rootKey = some m0.root.key ∧
+    ∀ (e : Event) (m : Mem) (y : Sys),
+      e.run codeOrder (runHist codeOrder evs (e0.after codeOrder (runHist codeOrder evs0 Disk.empty))) = .ok m y →
+      m.root.crt = m0.root.crt := by
+  have hinv := (reachable_invariant evs0 0 Disk.empty (InvAt.empty 0) hm0).mono he0
+  have hs := wp_sound e0.fault (startup .keyFirst e0.cfg) _ (boot (runHist codeOrder evs0 Disk.empty))
+    (wp_startup_inv e0.cfg _ (runHist codeOrder evs0 Disk.empty).fresh hinv)
+  have hheld : RootHeld e0.cfg.now m0 y0.store := by
+    unfold Event.run at h0
+    change exec e0.fault (startup .keyFirst e0.cfg) _ = _ at h0
+    rw [h0] at hs
+    exact hs
+  have hafter : (e0.after codeOrder (runHist codeOrder evs0 Disk.empty)).store = y0.store := by
+    simp [Event.after, h0, Res.sys]
+  have hfr := root_frozen codeOrder evs (e0.after codeOrder (runHist codeOrder evs0 Disk.empty)) m0.root.crt
+    (by rw [hafter]; exact hheld.2.1)
+  refine ⟨hfr.1, by rw [hfr.2, hafter]; exact hheld.2.2, ?_⟩
+  intro e m y hr
+  have hs2 := wp_sound e.fault (startup codeOrder e.cfg) _
+    (boot (runHist codeOrder evs (e0.after codeOrder (runHist codeOrder evs0 Disk.empty))))
+    (wp_startup_root_frozen codeOrder e.cfg _ _ m0.root.crt hfr.1)
+  unfold Event.run at hr
+  rw [hr] at hs2
+  exact hs2.2
+
+/-- the interruption that bricked the CA under the old write order (`Witness.f10`) is harmless
+    under the current one -/
+example : ∃ m y, (Event.mk ⟨2, 100⟩ none).run codeOrder (runHist codeOrder [f10] Disk.empty) = .ok m y ∧
+    m.Consistent ∧ Complete y.store m :=
+  recovery [f10] (by decide) ⟨2, 100⟩ (by decide)
+
+/-- a stored intermediate certificate that is outside its renewal window at every later
+    start-up stays stored, with the key next to it -/
+theorem inter_frozen (i r ra : Nat) : ∀ (evs : List Event) (d : Disk), d.store .intCrt = some (.cert i r ra) →
+    (∀ e ∈ evs, e.cfg.now < ra) →
+    (runHist codeOrder evs d).store .intCrt = some (.cert i r ra) ∧
+    (runHist codeOrder evs d).store .intKey = d.store .intKey
+  | [], _, h, _ => ⟨h, rfl⟩
+  | e :: es, d, h, hnd => by
+    have hs := wp_sound e.fault (startup codeOrder e.cfg) _ (boot d)
+      (wp_startup_inter_frozen codeOrder e.cfg d.store d.fresh i r ra h (hnd e (by simp)))
+    have h1 : (e.after codeOrder d).store .intCrt = some (.cert i r ra) ∧
+        (e.after codeOrder d).store .intKey = d.store .intKey :=
+      hs.store_all (fun _ _ _ h => h.1) (fun _ _ h => h) (fun _ h => h)
+    have ih := inter_frozen i r ra es (e.after codeOrder d) h1.1 (fun e' he' => hnd e' (by simp [he']))
+    exact ⟨ih.1, ih.2.trans h1.2⟩
+
+/-- **intermediate_stable_until_renewal.**  After an uninterrupted start-up has succeeded,
+    every later history of start-ups (interrupted anywhere) that happen before the
+    intermediate's renewal window opens leaves the stored intermediate certificate and key
+    unchanged, and every such start-up that returns uses that same intermediate and key. -/
+theorem intermediate_stable_until_renewal (evs0 : List Event) (hm0 : Monotone 0 evs0) (c0 : Cfg)
+    (he0 : lastTime 0 evs0 ≤ c0.now) (m0 : Mem) (y0 : Sys)
+    (h0 : (Event.mk c0 none).run codeOrder (runHist codeOrder evs0 Disk.empty) = .ok m0 y0)
+    (evs : List Event) (hnd : ∀ e ∈ evs, e.cfg.now < m0.inter.renewAt) :
+    (runHist codeOrder evs ((Event.mk c0 none).after codeOrder (runHist codeOrder evs0 Disk.empty))).store .intCrt
+        = some m0.inter.crt ∧
+    (runHist codeOrder evs ((Event.mk c0 none).after codeOrder (runHist codeOrder evs0 Disk.empty))).store .intKey
+        = some m0.inter.key ∧
+    ∀ (e : Event) (m : Mem) (y : Sys), e.cfg.now < m0.inter.renewAt →
+      e.run codeOrder (runHist codeOrder evs ((Event.mk c0 none).after codeOrder (runHist codeOrder evs0 Disk.empty)))
+        = .ok m y →
+      m.inter = m0.inter := by
+  obtain ⟨m, y, hr, hcons, hcomp⟩ := recovery evs0 hm0 c0 he0
+  rw [h0] at hr
+  cases hr
+  have hafter : ((Event.mk c0 none).after codeOrder (runHist codeOrder evs0 Disk.empty)).store = y0.store := by
+    simp [Event.after, h0, Res.sys]
+  have hic : ((Event.mk c0 none).after codeOrder (runHist codeOrder evs0 Disk.empty)).store .intCrt
+      = some (.cert m0.inter.pub m0.inter.signer m0.inter.renewAt) := by rw [hafter]; exact hcomp.2.2.1
+  have hfr := inter_frozen _ _ _ evs _ hic hnd
+  refine ⟨hfr.1, by rw [hfr.2, hafter]; exact hcomp.2.2.2, ?_⟩
+  intro e m y hlt hr
+  have hs2 := wp_sound e.fault (startup codeOrder e.cfg) _
+    (boot (runHist codeOrder evs ((Event.mk c0 none).after codeOrder (runHist codeOrder evs0 Disk.empty))))
+    (wp_startup_inter_frozen codeOrder e.cfg _ _ _ _ _ hfr.1 hlt)
+  unfold Event.run at hr
+  rw [hr] at hs2
+  obtain ⟨⟨_, h2⟩, h3, h4⟩ := hs2
+  have hk : some m.inter.key = some m0.inter.key := by
+    rw [← h4, h2]
+    exact hfr.2.trans (by rw [hafter]; exact hcomp.2.2.2)
+  simp only [Pair.crt, Blob.cert.injEq] at h3
+  simp only [Pair.key, Option.some.injEq, Blob.key.injEq] at hk
+  cases hm : m.inter
+  cases hm0' : m0.inter
+  simp_all
+
+/-! ### non-vacuity (kernel-evaluated) -/
+
+/-- the start-up of the current code on an empty storage performs exactly this operation
+    sequence (the sequence the harness observes on the real code) -/
+example : ((Event.mk ⟨1, 100⟩ none).run codeOrder Disk.empty).sys.log =
+    [.load .rootCrt, .store .rootKey (.key 0), .store .rootCrt (.cert 0 0 (1 + rootLife)),
+     .load .intCrt, .store .intKey (.key 1), .store .intCrt (.cert 1 0 101)] := by decide
+
+/-- a creation killed right after the root key was written (k = 2, crash after effect): the
+    store has a key and no certificate … -/
+example : ((Event.mk ⟨1, 100⟩ (some ⟨2, .crashAfter⟩)).after codeOrder Disk.empty).store .rootKey = some (.key 0) ∧
+    ((Event.mk ⟨1, 100⟩ (some ⟨2, .crashAfter⟩)).after codeOrder Disk.empty).store .rootCrt = none := by decide
+
+/-- … and the next start-up generates a fresh pair and a chain under it -/
+example : ((Event.mk ⟨2, 100⟩ none).run codeOrder
+      ((Event.mk ⟨1, 100⟩ (some ⟨2, .crashAfter⟩)).after codeOrder Disk.empty)).sys.store .rootCrt
+    = some (.cert 1 1 (2 + rootLife)) := by decide
+
+/-- an interrupted RENEWAL (intermediate lifetime 0, start-up 2 dies after writing the new
+    intermediate key): certificate 2 is stored next to key 3 — the mismatch `InvAt` allows
+    because certificate 2 is due; start-up 3 renews again and ends consistent -/
+example : (runHist codeOrder [⟨⟨1, 0⟩, none⟩, ⟨⟨2, 0⟩, some ⟨7, .crashAfter⟩⟩] Disk.empty).store .intCrt = some (.cert 2 0 1) ∧
+    (runHist codeOrder [⟨⟨1, 0⟩, none⟩, ⟨⟨2, 0⟩, some ⟨7, .crashAfter⟩⟩] Disk.empty).store .intKey = some (.key 3) := by decide
+
+example : ((Event.mk ⟨3, 50⟩ none).run codeOrder
+      (runHist codeOrder [⟨⟨1, 0⟩, none⟩, ⟨⟨2, 0⟩, some ⟨7, .crashAfter⟩⟩] Disk.empty)).sys.store .intCrt
+    = some (.cert 4 0 53) := by decide
+
+example : Monotone 0 [⟨⟨1, 0⟩, none⟩, ⟨⟨2, 0⟩, some ⟨7, .crashAfter⟩⟩] := by decide
+
+/-- hypotheses of root_stable / intermediate_stable_until_renewal: a start-up that succeeds,
+    later start-ups before the renewal window (101) opens -/
+example : ((Event.mk ⟨1, 100⟩ none).run codeOrder Disk.empty).sys.store .intCrt = some (.cert 1 0 101) ∧
+    (∀ e ∈ [Event.mk ⟨5, 7⟩ (some ⟨3, .failAfter⟩), Event.mk ⟨9, 7⟩ none], e.cfg.now < 101) := by decide
+
+/-! ## config autosave -/
+
+theorem seenHist_append (sty : Style) : ∀ (evs₁ evs₂ : List AEvent) (a : AState) (x : FS),
+    x ∈ seenHist sty evs₁ a → x ∈ seenHist sty (evs₁ ++ evs₂) a
+  | [], evs₂, a, x, h => by
+    simp [seenHist] at h
+    subst h
+    cases evs₂ with
+    | nil => simp [seenHist]
+    | cons e es =>
+      simp only [List.nil_append, seenHist, List.mem_append]
+      left
+      cases e with
+      | load l ft =>
+        simp only [AEvent.seen]
+        unfold loadStep
+        split
+        · simp
+        · split
+          · simp
+          · split
+            · have : a.fs ∈ (runOps ft (autosaveOps sty l.cfg) 0 a.fs).seen := by
+                cases hops : autosaveOps sty l.cfg with
+                | nil => simp [runOps]
+                | cons op rest => unfold runOps; split <;> simp
+              split <;> exact this
+            · simp
+      | restart => simp [AEvent.seen]
+  | e :: es, evs₂, a, x, h => by
+    simp only [seenHist, List.cons_append, List.mem_append] at h ⊢
+    rcases h with h | h
+    · exact Or.inl h
+    · exact Or.inr (seenHist_append sty es evs₂ _ x h)
+
+theorem seenHist_good : ∀ (evs : List AEvent) (a : AState) (A : List Bytes), Good A a.fs →
+    ∀ x ∈ seenHist codeStyle evs a, Good (A ++ acceptedIn codeStyle evs a) x
+  | [], a, A, h, x, hx => by
+    simp [seenHist] at hx
+    subst hx
+    simpa [acceptedIn] using h
+  | .restart :: es, a, A, h, x, hx => by
+    simp only [seenHist, AEvent.seen, List.mem_append, List.mem_singleton] at hx
+    simp only [acceptedIn]
+    rcases hx with hx | hx
+    · subst hx; exact h.mono (fun c hc => by simp [hc])
+    · exact seenHist_good es _ A (by simpa [AEvent.step] using h) x hx
+  | .load l ft :: es, a, A, h, x, hx => by
+    simp only [seenHist, AEvent.seen, List.mem_append] at hx
+    have hl := loadStep_good l ft a A h
+    have hacc : A ++ acceptedIn codeStyle (.load l ft :: es) a
+        = (A ++ acceptedBy l a) ++ acceptedIn codeStyle es ((AEvent.load l ft).step codeStyle a) := by
+      simp only [acceptedIn, acceptedBy]
+      split <;> simp
+    rw [hacc]
+    rcases hx with hx | hx
+    · exact (hl.1 x hx).mono (fun c hc => List.mem_append_left _ hc)
+    · exact seenHist_good es _ (A ++ acceptedBy l a) hl.2 x hx
+
+/-- **autosave_always_complete.**  For every load history — persistence on or off, rejected
+    and unchanged loads, restarts, and in every load a kill, a failing operation or a write torn
+    after any number of bytes, at any operation — the autosave file is at EVERY instant either
+    absent (nothing was ever saved) or byte for byte a config whose load had been accepted
+    before that instant. -/
+theorem autosave_always_complete (evs₁ evs₂ : List AEvent) (a : AState) (A : List Bytes) (h : Good A a.fs) :
+    ∀ x ∈ seenHist codeStyle evs₁ a,
+      x ∈ seenHist codeStyle (evs₁ ++ evs₂) a ∧ Good (A ++ acceptedIn codeStyle evs₁ a) x :=
+  fun x hx => ⟨seenHist_append codeStyle evs₁ evs₂ a x hx, seenHist_good evs₁ a A h x hx⟩
+
+/-- the running process and the file agree -/
+def InSync (a : AState) : Prop := ∀ c, a.cur = some c → a.fs.path = some c
+
+/-- no storage fault, persistence on -/
+def AEvent.clean : AEvent → Prop
+  | .load l ft => ft = none ∧ l.persists = true
+  | .restart => True
+
+instance : (e : AEvent) → Decidable e.clean
+  | .load l ft => by unfold AEvent.clean; infer_instance
+  | .restart => isTrue trivial
+
+theorem loadStep_insync (l : Load) (a : AState) (hp : l.persists = true) (h : InSync a) :
+    InSync (loadStep codeStyle l none a).st ∧
+    (l.accepted = true → (loadStep codeStyle l none a).st.cur = some l.cfg) := by
+  unfold loadStep
+  by_cases hs : sameCfg l a = true
+  · simp only [hs, if_true]
+    refine ⟨h, fun _ => ?_⟩
+    simp only [sameCfg, Bool.and_eq_true, beq_iff_eq] at hs
+    exact hs.2
+  · simp only [hs, Bool.false_eq_true, if_false]
+    by_cases hacc : l.accepted = true
+    · simp only [hacc, Bool.not_true, Bool.false_eq_true, if_false, hp, if_true]
+      have ho := ops_tmpRename_nofault a.fs l.cfg
+      simp only [codeStyle, ho.2.1]
+      exact ⟨fun c hc => by simp at hc; subst hc; exact ho.1, fun _ => by simp⟩
+    · simp only [hacc, Bool.not_false, if_true]
+      exact ⟨h, fun hh => absurd hh (by simp)⟩
+
+theorem insync_preserved : ∀ (evs : List AEvent) (a : AState), (∀ e ∈ evs, e.clean) → InSync a →
+    InSync (runLoads codeStyle evs a)
+  | [], _, _, h => h
+  | .restart :: es, a, hc, _ =>
+    insync_preserved es _ (fun e he => hc e (by simp [he])) (fun c hcur => by simp [AEvent.step] at hcur)
+  | .load l ft :: es, a, hc, h => by
+    obtain ⟨hft, hp⟩ := hc (.load l ft) (by simp)
+    subst hft
+    exact insync_preserved es _ (fun e he => hc e (by simp [he])) (loadStep_insync l a hp h).1
+
+/-- **autosave_latest_after_return.**  With persistence on and no storage fault, once the load
+    of a config has returned successfully the autosave file is exactly that config — whatever
+    was loaded, rejected, re-pushed unchanged or restarted before. -/
+theorem autosave_latest_after_return (evs : List AEvent) (a : AState) (hc : ∀ e ∈ evs, e.clean) (h : InSync a)
+    (l : Load) (hp : l.persists = true) (hacc : l.accepted = true) :
+    (runLoads codeStyle (evs ++ [.load l none]) a).fs.path = some l.cfg := by
+  have hrun : ∀ (es : List AEvent) (a : AState), runLoads codeStyle (es ++ [.load l none]) a
+      = (loadStep codeStyle l none (runLoads codeStyle es a)).st := by
+    intro es
+    induction es with
+    | nil => intro a; rfl
+    | cons e es ih => intro a; simp only [List.cons_append, runLoads]; exact ih _
+  rw [hrun]
+  have := loadStep_insync l (runLoads codeStyle evs a) hp (insync_preserved evs a hc h)
+  exact this.1 _ (this.2 hacc)
+
+/-- **autosave_only_if_persist_enabled.**  A load whose config has persistence off (or is
+    null, or may not be persisted) performs no file operation and leaves both files as they
+    were, in either style and under any fault. -/
+theorem autosave_only_if_persist_enabled (sty : Style) (l : Load) (ft : Option FFault) (a : AState)
+    (h : l.persists = false) :
+    (loadStep sty l ft a).log = [] ∧ (loadStep sty l ft a).st.fs = a.fs ∧ (loadStep sty l ft a).seen = [a.fs] := by
+  unfold loadStep
+  split
+  · simp
+  · split
+    · simp
+    · simp [h]
+
+/-- **autosave_only_accepted_configs.**  A rejected load performs no file operation; whenever a
+    file operation is performed the load was accepted (the new config is running and the old
+    one stopped: caddy.go:351-363 precede the write), and anything written is that config. -/
+theorem autosave_only_accepted_configs (sty : Style) (l : Load) (ft : Option FFault) (a : AState) :
+    (l.accepted = false → (loadStep sty l ft a).log = [] ∧ (loadStep sty l ft a).st.fs = a.fs) ∧
+    (∀ op ∈ (loadStep sty l ft a).log, l.accepted = true ∧ l.persists = true ∧
+      ∀ f d, op = .write f d → d = l.cfg) := by
+  unfold loadStep
+  split
+  · simp
+  · split
+    · simp
+    · rename_i hacc
+      simp only [Bool.not_eq_true', Bool.not_eq_false] at hacc
+      split
+      · rename_i hp
+        have hpre := runOps_log_prefix ft (autosaveOps sty l.cfg) 0 a.fs
+        refine ⟨fun h => by simp [hacc] at h, ?_⟩
+        have key : ∀ op ∈ (runOps ft (autosaveOps sty l.cfg) 0 a.fs).log,
+            l.accepted = true ∧ l.persists = true ∧ ∀ f d, op = .write f d → d = l.cfg := by
+          intro op hop
+          refine ⟨hacc, hp, ?_⟩
+          intro f d hd
+          have hmem := hpre.subset hop
+          subst hd
+          cases sty <;> simp [autosaveOps] at hmem <;> exact hmem.2
+        split <;> exact key
+      · simp [hacc]
+
+/-! ### non-vacuity (kernel-evaluated) -/
+
+/-- the autosave of the current code performs exactly this operation sequence (the sequence
+    strace shows for the real code) -/
+example : (loadStep codeStyle (exLoad [1, 2, 3] true true) none ⟨none, ⟨none, none⟩⟩).log
+    = [.creat .tmp, .write .tmp [1, 2, 3], .rename .tmp .path] := by decide
+
+/-- a history with an accepted load, a rejected one, one with persistence off, a restart and a
+    load killed while its temp file is half written: old config still in place -/
+example : (runLoads codeStyle
+      [.load (exLoad [1] true true) none, .load (exLoad [2] true false) none, .load (exLoad [3] false true) none,
+       .restart, .load (exLoad [4, 4] true true) (some ⟨2, .killTorn 1⟩)] ⟨none, ⟨none, none⟩⟩).fs
+    = ⟨some [1], some [4]⟩ := by decide
+
+example : acceptedIn codeStyle
+      [.load (exLoad [1] true true) none, .load (exLoad [2] true false) none, .load (exLoad [3] false true) none]
+      ⟨none, ⟨none, none⟩⟩ = [[1], [3]] := by decide
+
+example : ∀ e ∈ [AEvent.load (exLoad [1] true true) none, .restart, .load (exLoad [1] true true) none], e.clean := by
+  decide
+
 end CaddyModel.C14
